@@ -1,6 +1,7 @@
 import Psa.AdmitProps
 import Psa.NamespaceProofs
 import Psa.AdmitCases
+import Psa.Examples
 /-! # C06 — exemptions match exactly and are the only configured bypass -/
 namespace PSA.Props
 open PSA
@@ -106,6 +107,13 @@ theorem C06_bypass_rc (ev : Ev) (cfg : Config) (pol : Policy) (e : Bool) (p : Po
     non-exempt pods of the listing. -/
 theorem C06_dryrun_skips (exRC : List Str) (pods : List PodObj) :
     (prioritize exRC pods).Perm (pods.filter (fun p => !exemptRC p.runtimeClass exRC)) := prioritize_perm exRC pods
+
+/-- non-vacuity: a request in the exempt namespace meets the premises of C06_bypass_pod_ns; a pod with the exempt runtime class
+    is annotated `runtimeClass` (the premise of C06_only_pod) -/
+example : ignoredSubresources.contains (Ex.podCreate Ex.privPod b!"kube-system").sub = false ∧
+    exempt (Ex.podCreate Ex.privPod b!"kube-system").ns Ex.cfg.exNamespaces = true := by decide
+example : (validatePod parseVersion Ex.cfg (Ex.world Ex.restrictedLabels) (Ex.podCreate Ex.kataPod)).1.annExempt = some b!"runtimeClass" := by
+  decide +kernel
 
 #print axioms C06_exact
 #print axioms C06_exact_rc
